@@ -7,6 +7,7 @@ import (
 	"os"
 	"path/filepath"
 	"testing"
+	"time"
 )
 
 // WorkerArgs is passed in the VERIF_WORKER environment variable.
@@ -98,7 +99,9 @@ func TestWorker(t *testing.T) {
 			if sc == nil {
 				t.Fatalf("no generator for %s", a.Property)
 			}
+			t0 := time.Now()
 			r := runScenario(rt, sc)
+			r.WallMs = time.Since(t0).Milliseconds()
 			if len(r.Violations) > 0 || r.Trouble != "" || n < a.Samples {
 				r.Scenario = sc
 			}
